@@ -1,6 +1,7 @@
 package main
 
 import (
+	"encoding/json"
 	"fmt"
 	"strconv"
 	"strings"
@@ -10,7 +11,7 @@ import (
 
 func genC05(c *Ctx) error {
 	c.ShardSize = 25
-	c.Notes["rule"] = "histories of 10-30 steps on one chaincode (LevelDB or CouchDB key rules): submissions of scripted transactions (valid ones, and ones rejected at submission: corrupted signature, missing signature, a black-listed or malformed address argument, a sender-less method with no argument or one too many) and batches whose id lists are random multisets of pending, already executed, unknown and duplicated ids. Observed after every step: the ledger projection (data, pending, nonce keys) and, for batches, the reply per listed id. Non-trivial: some id is listed at least twice over the history. Second part (pipeline cases): histories of 10-25 whole invocations on one chaincode (the scripted method sometimes disabled): signed submissions by ordinary / robot / malformed creators from single-key and 2-of-3 accounts, honest or broken (corrupted, foreign-key, other-message or blank signature, other channel name, altered script, unsigned, bad nonce string; access-control answer ok / black / grey / failing / without key types), batchExecute by the robot or by others with multisets of known / repeated / unknown ids, executeTasks lists of 1-3 such requests by any creator; observed after every invocation: response class and the ledger projection; compared with Model/Pipeline.v step by step. Non-trivial there: >= 2 recorded, >= 2 refused, >= 1 executed."
+	c.Notes["rule"] = "histories of 10-30 steps on one chaincode (LevelDB or CouchDB key rules): submissions of scripted transactions, one in five through a gRPC-routed method whose request message has no validator (valid ones, and ones rejected at submission: corrupted signature, missing signature, a black-listed or malformed address argument, a sender-less method with no argument or one too many) and batches whose id lists are random multisets of pending, already executed, unknown and duplicated ids. Observed after every step: the ledger projection (data, pending, nonce keys) and, for batches, the reply per listed id. Non-trivial: some id is listed at least twice over the history. Second part (pipeline cases): histories of 10-25 whole invocations on one chaincode (the scripted method sometimes disabled): signed submissions by ordinary / robot / malformed creators from single-key and 2-of-3 accounts, honest or broken (corrupted, foreign-key, other-message or blank signature, other channel name, altered script, unsigned, bad nonce string; access-control answer ok / black / grey / failing / without key types), batchExecute by the robot or by others with multisets of known / repeated / unknown ids, executeTasks lists of 1-3 such requests by any creator; observed after every invocation: response class and the ledger projection; compared with Model/Pipeline.v step by step. Non-trivial there: >= 2 recorded, >= 2 refused, >= 1 executed."
 	n := c.N(200, 4000)
 	for i := 0; i < n; i++ {
 		if err := c05Case(c); err != nil {
@@ -65,6 +66,14 @@ func c05Case(c *Ctx) error {
 				}
 				args = w.SignedArgs("tt", fn, acc, strconv.FormatUint(bw.nonce, 10), to, bodyScript(body))
 			}
+			if fn == "script" && rng.Intn(5) == 0 {
+				// the same body through a method served by the gRPC router, whose request message (a plain
+				// google.protobuf.StringValue) has no generated validator
+				fn = svcScriptRun
+				js, _ := json.Marshal(bodyScript(body))
+				args = w.SignedArgs("tt", fn, acc, strconv.FormatUint(bw.nonce, 10), string(js))
+				c.Count("submit_grpc_routed_method")
+			}
 			switch rng.Intn(10) {
 			case 0:
 				// corrupted signature: the last two characters replaced (by others than they are)
@@ -97,6 +106,9 @@ func c05Case(c *Ctx) error {
 				continue
 			}
 			res := w.Submit("tt", fn, args)
+			if fn == svcScriptRun && !res.OK() && !bad {
+				c.Count("grpc_submission_refused: " + res.Message)
+			}
 			hist = append(hist, fmt.Sprintf("HSub %d %d %d %d %s %s %s", txNum(res.TxID), acc.N(), bw.nonce, bi, coqBool(bad), coqBool(res.OK()), bw.ledgerTerm()))
 			if res.OK() {
 				known = append(known, res.TxID)
